@@ -98,7 +98,7 @@ def sharing(parsed, nonshareable_rules, builds):
                 if ns_i or base_name(bj["rule"]) in nonshareable_rules: continue
                 same_out = bi["outs"] == bj["outs"]
                 same_content = rules.get(bi["rule"]) == rules.get(bj["rule"]) and base_name(bi["rule"]) == base_name(bj["rule"]) \
-                               and sorted(bi["deps"]) == sorted(bj["deps"])
+                               and sorted(bi["deps"]) == sorted(bj["deps"]) and bi.get("always") == bj.get("always")
                 if same_out and not same_content:
                     bad.append(("shared-object-different-statements", inp, bi["outs"]))
                 if same_content and not same_out:
